@@ -1,7 +1,8 @@
 ----------------------------- MODULE Gen_C18 -----------------------------
 (* Mode B generator for C18: IPv4 networks for every prefix length 0..32, IPv6 networks
    for prefix lengths 0..128, both over boundary / structured / random base addresses
-   (masked here, so every case is a valid network), written as text by the spec, plus
+   (masked here, so every case is a valid network), written as text by the spec (canonical form, and for a
+   subset netmask notation / no prefix length / upper-case / uncompressed IPv6), plus
    invalid CIDR strings.  Shard 1 = IPv4, 2 = IPv6, 3 = invalid.                     *)
 EXTENDS Cidr, Json, IOUtils, Randomization, TLC
 VARIABLE x
@@ -30,6 +31,20 @@ V6Cases == {[kind |-> "v6", net |-> MaskV6(b, p), p |-> p,
              text |-> (IF full THEN FullV6(MaskV6(b, p)) ELSE Canonical(MaskV6(b, p))) \o <<47>> \o NatText(p)]
               : b \in V6Bases, p \in V6Prefixes, full \in (IF Quick THEN {FALSE} ELSE BOOLEAN)}
 
+\* valid networks in spellings other than the canonical one: dotted netmask, no prefix length
+\* (a single address), upper-case and uncompressed IPv6 - the meaning (net, p) is the same
+Upper(t) == [i \in 1..Len(t) |-> IF t[i] >= 97 /\ t[i] <= 102 THEN t[i] - 32 ELSE t[i]]
+AltBases4 == {<<10, 1, 2, 3>>, <<192, 168, 129, 77>>, <<255, 255, 255, 255>>}
+V4Alt == {[kind |-> "v4", net |-> MaskV4(b, p), p |-> p,
+           text |-> V4Text(MaskV4(b, p)) \o <<47>> \o V4Text(V4MaskOctets(p))] : b \in AltBases4, p \in 0..32}
+         \cup {[kind |-> "v4", net |-> b, p |-> 32, text |-> V4Text(b)] : b \in AltBases4}
+AltBases6 == {<<8193, 3512, 0, 1, 0, 0, 1, 0>>, <<65152, 0, 0, 0, 513, 45055, 65034, 1>>,
+              <<4660, 22136, 39612, 57072, 4660, 22136, 39612, 57072>>, <<0, 0, 0, 0, 0, 0, 0, 1>>}
+V6Alt == {[kind |-> "v6", net |-> MaskV6(b, p), p |-> p,
+           text |-> (IF f = "upper" THEN Upper(Canonical(MaskV6(b, p))) ELSE FullV6(MaskV6(b, p))) \o <<47>> \o NatText(p)]
+            : b \in AltBases6, p \in {0, 10, 56, 64, 100, 127, 128}, f \in {"upper", "full"}}
+         \cup {[kind |-> "v6", net |-> b, p |-> 128, text |-> Canonical(b)] : b \in AltBases6}
+
 BadTexts == {
   <<49,46,50,46,51,46,52,47,51,51>>,            \* 1.2.3.4/33
   <<49,46,50,46,51,47,50,52>>,                  \* 1.2.3/24
@@ -45,7 +60,7 @@ BadTexts == {
 }
 BadCases == {[kind |-> "bad", net |-> <<>>, p |-> 0, text |-> t] : t \in BadTexts}
 
-Cases == CASE Shard = 1 -> V4Cases [] Shard = 2 -> V6Cases [] OTHER -> BadCases
+Cases == CASE Shard = 1 -> V4Cases \cup V4Alt [] Shard = 2 -> V6Cases \cup V6Alt [] OTHER -> BadCases
 ASSUME LET S == SetToSeq(Cases)
        IN  ndJsonSerialize(IOEnv.VERIF_OUT, [i \in 1..Len(S) |-> [id |-> Shard * 1000000 + i] @@ S[i]])
 Init == x = 0
